@@ -162,7 +162,8 @@ Proof. exact internal_steps_terminate. Qed.
 Print Assumptions C16_internal_steps_terminate.
 
 (* The specification used to judge the implementation (Model/UnifyConcSpec.v: result, first
-   success, readers, chosen context, goroutines) holds of the snapshot of every reachable
+   success, readers, chosen context, contexts of the members not chosen cancelled, no context
+   with a deadline of its own, goroutines) holds of the snapshot of every reachable
    quiescent state, and therefore of every snapshot list the schedule runner can produce -
    for every configuration and EVERY schedule (any events, in any order, waited for or not). *)
 Theorem C16_spec_holds : forall s, reach s -> quiescent s = true -> snap_ok (st s) (snap s) = true.
